@@ -45,13 +45,42 @@ type PathEnum struct {
 	// IgnoreUnknown: explore both successors of an unrecognised condition
 	// without recording a fact (the outcome must then not depend on it)
 	IgnoreUnknown bool
-	Excl    [][2]string                       // pairs of atoms that cannot both be true
+	Excl          [][2]string // pairs of atoms that cannot both be true
 	// BackEdge: outcome name when a path returns to a block already on it
 	BackEdge string
 	MaxPaths int
+	// Inline: helpers of the same package that may be walked as part of the
+	// function (nil = no inlining). Recognisers must compare pe.C(v) with
+	// root-level values.
+	Inline func(*ssa.Function) bool
 
 	Rows    []PathRow
 	Unknown []ssa.Value
+
+	cur *Frame
+	env *boolEnv
+}
+
+// C canonicalises a value seen in the current (possibly inlined) frame.
+func (pe *PathEnum) C(v ssa.Value) ssa.Value {
+	if pe.cur == nil {
+		return v
+	}
+	return pe.cur.Canon(v)
+}
+
+// Known reports a boolean value decided on the current path (helper result,
+// phi of constants).
+func (pe *PathEnum) Known(v ssa.Value) (bool, bool) {
+	if pe.env == nil {
+		return false, false
+	}
+	return pe.env.eval(pe.cur, v)
+}
+
+type peBlockKey struct {
+	fr *Frame
+	b  *ssa.BasicBlock
 }
 
 func (pe *PathEnum) Run(fn *ssa.Function) {
@@ -61,12 +90,12 @@ func (pe *PathEnum) Run(fn *ssa.Function) {
 	if len(fn.Blocks) == 0 {
 		return
 	}
-	onPath := map[*ssa.BasicBlock]bool{}
+	pe.env = newBoolEnv()
+	onPath := map[peBlockKey]bool{}
 	facts := map[string]bool{}
 	var order []string
 	var events []string
 	seenRow := map[string]bool{}
-	var walk func(b *ssa.BasicBlock)
 	emit := func(outcome string, pos token.Pos) {
 		if len(pe.Rows) >= pe.MaxPaths {
 			return
@@ -101,22 +130,46 @@ func (pe *PathEnum) Run(fn *ssa.Function) {
 		}
 		return true
 	}
-	walk = func(b *ssa.BasicBlock) {
-		if onPath[b] {
-			emit(pe.BackEdge, b.Instrs[0].Pos())
+	root := &Frame{fn: fn}
+	// walk continues at instruction idx of block b in frame fr; resume is the
+	// continuation of the caller when fr is an inlined helper.
+	var walk func(fr *Frame, b *ssa.BasicBlock, idx int, pred *ssa.BasicBlock, resume func())
+	walk = func(fr *Frame, b *ssa.BasicBlock, idx int, pred *ssa.BasicBlock, resume func()) {
+		if len(pe.Rows) >= pe.MaxPaths {
 			return
 		}
-		onPath[b] = true
+		key := peBlockKey{fr, b}
+		if idx == 0 {
+			if onPath[key] {
+				pe.cur = fr
+				emit(pe.BackEdge, b.Instrs[0].Pos())
+				return
+			}
+			onPath[key] = true
+			defer func() { onPath[key] = false }()
+			m := pe.env.mark()
+			defer pe.env.rollback(m)
+			pe.env.enterBlock(fr, b, pred)
+		}
 		nEv := len(events)
-		defer func() { onPath[b] = false; events = events[:nEv] }()
-		if pe.Event != nil {
-			for _, in := range b.Instrs {
+		defer func() { events = events[:nEv] }()
+		for i := idx; i < len(b.Instrs)-1; i++ {
+			in := b.Instrs[i]
+			pe.cur = fr
+			if callee := inlinableCall(fn, fr, in, pe.Inline); callee != nil && pe.Inline != nil {
+				sub := &Frame{call: in.(*ssa.Call), fn: callee, parent: fr, depth: fr.depth + 1}
+				bb, ii := b, i
+				walk(sub, callee.Blocks[0], 0, nil, func() { walk(fr, bb, ii+1, nil, resume) })
+				return
+			}
+			if pe.Event != nil {
 				if ev := pe.Event(in); ev != "" {
 					events = append(events, ev)
 				}
 			}
 		}
 		last := lastInstr(b)
+		pe.cur = fr
 		switch x := last.(type) {
 		case *ssa.If:
 			cond := x.Cond
@@ -128,11 +181,46 @@ func (pe *PathEnum) Run(fn *ssa.Function) {
 				}
 				cond, neg = u.X, !neg
 			}
+			if v, known := pe.env.eval(fr, cond); known {
+				k := 1
+				if v != neg {
+					k = 0
+				}
+				walk(fr, b.Succs[k], 0, b, resume)
+				return
+			}
+			// a helper's result / a phi whose value on this path is an undecided
+			// expression: decide that expression (in its own frame)
+			condFr := fr
+			for i := 0; i < 8; i++ {
+				c2, f2 := pe.env.resolveAlias(condFr, cond)
+				if c2 == cond {
+					break
+				}
+				cond, condFr = c2, f2
+				for {
+					u, ok := cond.(*ssa.UnOp)
+					if !ok || u.Op != token.NOT {
+						break
+					}
+					cond, neg = u.X, !neg
+				}
+				if v, known := pe.env.eval(condFr, cond); known {
+					k := 1
+					if v != neg {
+						k = 0
+					}
+					walk(fr, b.Succs[k], 0, b, resume)
+					return
+				}
+			}
+			pe.cur = condFr
 			name, n2, ok := pe.Atom(cond)
+			pe.cur = fr
 			if !ok {
 				if pe.IgnoreUnknown {
 					for _, s := range b.Succs {
-						walk(s)
+						walk(fr, s, 0, b, resume)
 					}
 					return
 				}
@@ -153,21 +241,34 @@ func (pe *PathEnum) Run(fn *ssa.Function) {
 					facts[name] = val
 					order = append(order, name)
 				}
-				walk(s)
+				m := pe.env.mark()
+				pe.env.set(cond, val != n2) // the raw condition's value on this edge
+				walk(fr, s, 0, b, resume)
+				pe.env.rollback(m)
 				if !had {
 					delete(facts, name)
 					order = order[:len(order)-1]
 				}
 			}
 		case *ssa.Jump:
-			walk(b.Succs[0])
-		case *ssa.Return, *ssa.Panic:
+			walk(fr, b.Succs[0], 0, b, resume)
+		case *ssa.Return:
+			if fr.call != nil && resume != nil {
+				m := pe.env.mark()
+				pe.env.bindResults(fr, x)
+				resume()
+				pe.env.rollback(m)
+				return
+			}
+			emit(pe.Outcome(last, events), last.Pos())
+		case *ssa.Panic:
 			emit(pe.Outcome(last, events), last.Pos())
 		default:
 			emit("?unexpected-terminator", last.Pos())
 		}
 	}
-	walk(fn.Blocks[0])
+	walk(root, fn.Blocks[0], 0, nil, nil)
+	pe.cur = nil
 }
 
 // needAtom is raised by a specification when it needs an atom the path did
@@ -175,28 +276,86 @@ func (pe *PathEnum) Run(fn *ssa.Function) {
 type needAtom struct{ name string }
 
 // SpecEval evaluates a specification procedure on a (partial) assignment.
-func SpecEval(row PathRow, spec func(ask func(string) bool) string) (outcome string, missing string) {
-	defer func() {
-		if e := recover(); e != nil {
-			if n, ok := e.(needAtom); ok {
-				missing = n.name
-				return
+// Atoms the path did not decide are completed in every possible way: if the
+// specification's answer is the same for all completions, the path's outcome
+// is determined regardless of the order in which the code tested things;
+// otherwise the first atom that makes a difference is reported as missing.
+func SpecEval(row PathRow, spec func(ask func(string) bool) string, excl ...[2]string) (outcome string, missing string) {
+	var free []string
+	run := func(comp map[string]bool) (out string, need string) {
+		defer func() {
+			if e := recover(); e != nil {
+				if n, ok := e.(needAtom); ok {
+					need = n.name
+					return
+				}
+				panic(e)
 			}
-			panic(e)
-		}
-	}()
-	ask := func(name string) bool {
-		if strings.HasPrefix(name, "?") { // "?X": has X been decided on this path?
-			_, decided := row.Facts[name[1:]]
-			return decided
-		}
-		v, ok := row.Facts[name]
-		if !ok {
+		}()
+		ask := func(name string) bool {
+			if strings.HasPrefix(name, "?") { // "?X": has X been decided on this path?
+				_, decided := row.Facts[name[1:]]
+				return decided
+			}
+			if v, ok := row.Facts[name]; ok {
+				return v
+			}
+			if v, ok := comp[name]; ok {
+				return v
+			}
 			panic(needAtom{name})
 		}
-		return v
+		return spec(ask), ""
 	}
-	return spec(ask), ""
+	for round := 0; round < 12; round++ {
+		results := map[string]bool{}
+		var need string
+		n := len(free)
+		for m := 0; m < 1<<n && need == ""; m++ {
+			comp := map[string]bool{}
+			for i, a := range free {
+				comp[a] = m&(1<<i) != 0
+			}
+			// skip completions that violate a declared mutual exclusion
+			bad := false
+			for _, ex := range excl {
+				va, oka := comp[ex[0]]
+				if !oka {
+					va, oka = row.Facts[ex[0]]
+				}
+				vb, okb := comp[ex[1]]
+				if !okb {
+					vb, okb = row.Facts[ex[1]]
+				}
+				if oka && okb && va && vb {
+					bad = true
+				}
+			}
+			if bad {
+				continue
+			}
+			out, nd := run(comp)
+			if nd != "" {
+				need = nd
+				break
+			}
+			results[out] = true
+		}
+		if need != "" {
+			free = append(free, need)
+			continue
+		}
+		if len(results) == 1 {
+			for o := range results {
+				return o, ""
+			}
+		}
+		if len(free) > 0 {
+			return "", free[0]
+		}
+		return "", "?"
+	}
+	return "", "?"
 }
 
 // CheckTable compares every extracted row with the specification and emits
@@ -210,7 +369,7 @@ func CheckTable(p *Prog, r *Report, rule, fnKey string, pe *PathEnum, spec func(
 			r.Unk(rule, fnKey+" "+row.Outcome, p.Pos(row.Pos), "a branch condition outside the rule's atom vocabulary; extend the vocabulary after reading the code: path so far "+row.String())
 			continue
 		}
-		want, missing := SpecEval(row, spec)
+		want, missing := SpecEval(row, spec, pe.Excl...)
 		switch {
 		case missing != "":
 			r.Unk(rule, key, p.Pos(row.Pos), fmt.Sprintf("outcome %q reached without deciding %s, which the specification consults at this point (missing test, or tests reordered: re-read and adapt the specification order)", row.Outcome, missing))
